@@ -155,6 +155,13 @@ func runC07(tier string, seed uint64, rep *Report) {
 	for round := 0; round < nB; round++ {
 		for si, sh := range c07TimedShapes {
 			w, _ := NewWorld()
+			if round%2 == 1 {
+				// the environment is not fresh: an earlier evaluation under a context that is still alive used the same builtins
+				rep.Histogram["timed:environment-used-before-under-a-live-context"]++
+				if o := w.EvalText(context.Background(), "(do (sleep 1) @(future 1) (map (fn [x] x) [1]) (apply + [1 2]) (swap! (atom 1) (fn [x] x)) (update {:a 1} :a (fn [x] x)) (update-in {:a 1} [:a] (fn [x] x)) (try (sleep 1) (catch e e)))"); o.Err != nil || o.Panic != nil {
+					panic(fmt.Sprint("harness: warm-up failed: ", o.Err, o.Panic))
+				}
+			}
 			src := strings.ReplaceAll(sh.src, "@LOOPFILE@", loopFile)
 			if strings.Contains(src, "earlier") {
 				// an evaluation under context.Background() leaves a sleeping future behind
